@@ -42,6 +42,13 @@ OPTS = {
 }
 
 
+def _o_filter(case):
+    return case[4] in ('x', 'x+rep', 'x+nie') and case[0] <= 2
+
+
+ENV_PASSES = [{'name': 'python -O', 'argv': ['-O'], 'env': {}, 'filter': _o_filter}]
+
+
 def cases(tier, seed):
     T = 2 if tier == 'quick' else 3
     optkeys = ['x', 'x+rep', 'x+shuf1', 'x+shuf2', 'x+j2', 'x+nie', 'x+nie+rep']
